@@ -338,7 +338,11 @@ Proof.
     + destruct (is_var s).
       * destruct (is_anon s); [cbn; apply PermR_single|].
         destruct (inequal f bs s) as [|r].
-        -- destruct (lookup s bs) as [b|]; [apply IH | cbn; apply PermR_single].
+        -- destruct (lookup s bs) as [b|]; [|cbn; apply PermR_single].
+           unfold bound_match. destruct b as [| | |t| |]; try apply IH.
+           destruct (is_var t); [|apply IH].
+           destruct f as [| | |u| |]; cbn; try apply PermR_nil.
+           destruct (String.eqb t u); cbn; [apply PermR_single | apply PermR_nil].
         -- cbn. apply perm_PermR_eq. apply Permutation_refl.
       * destruct f as [| | |t| |]; cbn; try apply PermR_nil.
         destruct (String.eqb s t); cbn; [apply PermR_single | apply PermR_nil].
